@@ -3,6 +3,7 @@ import Pendulum.Proofs.FmtTokenize
 import Pendulum.Proofs.FmtLocales
 import Pendulum.Props.C15
 import Pendulum.Proofs.GettersFmtGen
+import Pendulum.Proofs.GettersRef
 /-! # C08 — format() renders every token correctly and from_format() inverts it
 
 Property theorems only. `Gen.Format.*` / `Gen.FormatLocales.*` / `Gen.py_*` are regenerated from
